@@ -95,19 +95,6 @@ theorem switch_explicit16 :
       (.test 0x3E (.leaf Tokens.XGo.BIDIARROW false 0) trieLss)) := by
   decide +kernel
 
-/-- the part of `Scan` behind the operator lookup -/
-def opFinish (cfg : Cfg) (src : Array UInt8) (st1 : St) (pos ch : Nat) : St × Option Token :=
-  match (codes cfg.d).ops.lookup ch with
-  | some t =>
-    let w := walk src t st1
-    finish cfg { w.1 with nParen := w.1.nParen + w.2.2.2 } pos w.2.1 [] w.2.2.1
-  | none =>
-    let st2 :=
-      if ch = bomCh then st1
-      else if cfg.d = .go ∧ (ch = 0x201C ∨ ch = 0x201D) then st1.error pos (.curlyQuote ch)
-      else st1.error pos (.illegalChar ch)
-    finish cfg st2 pos (codes cfg.d).ILLEGAL (encodeRune ch) st2.insertSemi
-
 /-- both sides walk the same trie -/
 theorem opSame16 (U : UCls) (c n : Bool) {a b : St} (h : Same a b) (hi : Inv src a) (hu : a.unitVal = [])
     (hn : b.nlPos = none) (hprev : n = true → a.insertSemi = b.insertSemi) (pos : Nat) (t : Trie) (dx dg : Int) :
